@@ -206,6 +206,13 @@ def run(ctx):
     hist = list(CORPUS)
     for _ in range(ctx.n(1500, 40000)):
         hist.append(gen_history(ctx.rng, sts))
+    # one notification message may carry a great many updates (a large bag of tasks moving in step): more than a
+    # thousand dicts in one batch, several per task
+    for ntask, nsteps in ((260, 5), (700, 2)):
+        big_tasks = [{'uid': i, 'state': 'NEW'} for i in range(ntask)]
+        order = [s for s in sts if s != 'NEW'][:nsteps]
+        big = [{'uid': i, 'state': st} for st in order for i in range(ntask)]
+        hist.append((big_tasks, [big, [{'uid': 0, 'state': 'DONE'}, {'uid': 1, 'state': order[-1]}]]))
     kinds = {'raised': 0, 'with_final_contradiction': 0, 'unknown_uid': 0}
     for tasks, batches in hist:
         res, errs = run_history(rp, tasks, batches)
